@@ -164,6 +164,19 @@ def _shard(ctx, shard, nshards):
             if stride > 1 and not special and ((i * 31 + j * 17 + ctx.seed) % stride):
                 continue
             _do_pair(ctx, a, b, 'bounded', True)
+    if not ctx.quick:
+        # deeper bound: a strided sample of the values with exactly two slashes against the one-slash values
+        deep = gen_cat.enum_cats('en', 2, bar=True, reduced=True)[len(vals):]
+        step_d = max(1, len(deep) // 2500)
+        step_v = max(1, len(vals) // 48)
+        k = 0
+        for d_ in deep[(ctx.seed * 7) % step_d::step_d]:
+            for v_ in vals[(ctx.seed * 3) % step_v::step_v]:
+                k += 1
+                if k % nshards != shard:
+                    continue
+                _do_pair(ctx, d_, v_, 'bounded-2-slashes', True)
+                _do_pair(ctx, v_, d_, 'bounded-2-slashes', True)
     if shard == 0:
         ctx.notes['inventory_size'] = n
         ctx.notes['closure_categories'] = len(clo)
